@@ -20,6 +20,7 @@ import traceback
 
 from . import common as C
 from . import sess_common as S
+from . import c17_ref as R17
 
 PROP = "C20"
 PROPS_MODULES = ["AsyncFix.Props.C20", "AsyncFix.Props.C20Lock"]
@@ -107,7 +108,7 @@ def view_of(o):
         "clord": o.clord_id, "orig": o.orig_clord_id, "oid": o.order_id, "qty": o.qty, "price": o.price,
         "cum": o.cum_qty, "leaves": o.leaves_qty, "avg": o.avg_px, "status": enum_val(o.status),
         "side": enum_val(o.side), "ticker": o.ticker, "ord_type": enum_val(o.ord_type),
-        "account": o.account if isinstance(o.account, str) else None, "cnt": o._clord_id_cnt,
+        "account": o.account if isinstance(o.account, str) else None, "cnt": R17._cnt_of(o),
     }
 
 
@@ -136,7 +137,7 @@ def make_order(v):
     o.clord_id, o.orig_clord_id, o.order_id = v["clord"], v["orig"], v["oid"]
     o.cum_qty, o.leaves_qty, o.avg_px = v["cum"], v["leaves"], v["avg"]
     o.status = member(FOrdStatus, v["status"])
-    o._clord_id_cnt = v.get("cnt", 0)
+    setattr(o, R17.counter_attr(), v.get("cnt", 0))
     return o
 
 
